@@ -706,7 +706,8 @@ fn onto_case(rng: &mut Rng, prop: &str, tier: &str, idx: usize) -> Case {
     let (mut f, shape) = gen_facts(rng, &DagOpts { max_terms, with_roots, max_recs: 6 });
     c.stat(&format!("shape_{shape:?}"), 1);
     if path < 2 {
-        facts_to_prog(rng, &f, &ProgOpts { shuffle: true, failing_permille: 0, build_defaults: with_roots, slot: 0 }, &mut c);
+        // with rejected calls (absent terms) among the accepted ones: they leave no trace
+        facts_to_prog(rng, &f, &ProgOpts { shuffle: true, failing_permille: 150, build_defaults: with_roots, slot: 0 }, &mut c);
     } else {
         let fv = (path - 1) as u8; // 1, 2, 3
         let flags = gen_flags(rng, &mut f);
@@ -784,6 +785,13 @@ fn ids_csv(v: &[u32]) -> String {
 }
 
 fn c15(rng: &mut Rng, idx: usize) -> Case {
+    if idx == 11 {
+        // more than 65 535 terms: calls on terms defined late are accepted and land on those terms
+        let mut c = Case::new("history-big-arena");
+        c.op(format!("bigarena 70000 {}", rng.next()));
+        c.nontrivial = true;
+        return c;
+    }
     if idx % 600 == 7 {
         // more than 65 535 distinct records of a kind through annotate_*: every call succeeds (the
         // limit belongs to the information-content calculation, judged by predicate there)
@@ -900,6 +908,12 @@ fn c16(rng: &mut Rng, tier: &str, idx: usize) -> Case {
         }
         if s > 0 {
             c.op(format!("same 0 {s}"));
+        }
+        if with_roots && s == k - 1 {
+            // ... also after the binary round trip of an ontology whose terms were supplied in
+            // another order (the writer walks the arena in insertion order)
+            c.op(format!("roundtrip {s} 40"));
+            c.op("same 0 40".to_string());
         }
     }
     c.op("dump 0".to_string());
@@ -1120,8 +1134,22 @@ fn c10(rng: &mut Rng, idx: usize) -> Case {
     }
     facts_stats(&f, &mut c);
     let with_roots = f.terms.iter().any(|t| t.0 == 1) && f.terms.iter().any(|t| t.0 == 118);
-    // with rejected calls (absent terms, also with record ids that are never registered)
-    facts_to_prog(rng, &f, &ProgOpts { shuffle: true, failing_permille: 300, build_defaults: with_roots, slot: 0 }, &mut c);
+    if with_roots && rng.chance(1, 3) {
+        // binary route: obsolete / replaced terms (a lookup of an obsolete id returns THAT term)
+        let mut flags = gen_flags(rng, &mut f);
+        let ids_now: Vec<u32> = f.terms.iter().map(|t| t.0).collect();
+        for id in &ids_now {
+            if *id != 1 && *id != 118 && !flags.iter().any(|x| x.0 == *id) && rng.chance(1, 4) {
+                flags.push((*id, true, Some(*rng.pick(&ids_now))));
+            }
+        }
+        c.stat("obsolete_or_replaced_terms", flags.len() as u64);
+        let fv = 2 + rng.below(2) as u8;
+        facts_to_fops(rng, &f, &flags, fv, 0, true, &mut c);
+    } else {
+        // with rejected calls (absent terms, also with record ids that are never registered)
+        facts_to_prog(rng, &f, &ProgOpts { shuffle: true, failing_permille: 300, build_defaults: with_roots, slot: 0 }, &mut c);
+    }
     // a record id is a key exactly if a successful call registered it
     c.op("dump 0".to_string());
     for k in 0..3 {
